@@ -558,29 +558,14 @@ func TestCheck(t *testing.T) {
 		}
 	}
 	st := explore.Explore(explore.Config{Budgets: budgets, Deadline: vf.Pick(r, 240*time.Second, 25*time.Minute)}, func(c *explore.Ctx) {
-		if os.Getenv("C08_DUMP") != "" { // TEMP
-			return
-		}
 		handle(c, run(c), &full, c.Choices())
 	})
 	for _, m := range st.Nondet {
 		r.EngineError("nondeterminism: " + m)
 	}
-	var dumpF *os.File // TEMP
-	var dumpMu sync.Mutex
-	if p := os.Getenv("C08_DUMP"); p != "" {
-		dumpF, _ = os.Create(p)
-		defer dumpF.Close()
-	}
 	// part 1b: lost requests
 	st1b := explore.Explore(explore.Config{Budgets: lostBudgets, Deadline: vf.Pick(r, 240*time.Second, 15*time.Minute)}, func(c *explore.Ctx) {
-		o := body(t, c, lostSpec, sh)
-		if dumpF != nil { // TEMP
-			dumpMu.Lock()
-			fmt.Fprintf(dumpF, "%s | %s | %v\n", c.String(), o.sig, o.events)
-			dumpMu.Unlock()
-		}
-		handle(c, o, &lostFull, map[string]any{"Lost": true, "Choices": c.Choices()})
+		handle(c, body(t, c, lostSpec, sh), &lostFull, map[string]any{"Lost": true, "Choices": c.Choices()})
 	})
 	for _, m := range st1b.Nondet {
 		r.EngineError("nondeterminism (lost-request part): " + m)
